@@ -32,15 +32,33 @@ def loop_summary(ev, body, src_kinds):
     return l, nid, inner
 
 
+def follow_delegation(crate, body, hops=3):
+    """a function that has no loop of its own and merely hands its parameters to a private function of the crate (the loop
+    extracted into a helper): -> (the helper's body, the argument terms in the caller's parameters); else (body, None)"""
+    args = None
+    while hops > 0 and body is not None and not any(n.get('k') == 'Loop' for n in body.walk()):
+        ev = Evaluator(crate)
+        top = T.unroot(ev.eval_entry(body, args))
+        if not (isinstance(top, tuple) and top and top[0] == 'call' and isinstance(top[1], str)):
+            break
+        nb = crate.body(top[1])
+        if nb is None or not str(nb.raw.get('vis', '')).startswith('Restricted') or nb.raw.get('impl_trait'):
+            break
+        body, args = nb, list(top[2])
+        hops -= 1
+    return body, args
+
+
 def check_search_with_offset(rep, crate):
     body = crate.body(SWO)
     fn = SWO
     if body is None:
         rep.bad('ANCHOR', 'ANCHOR:search_with_offset', SWO, 'function not found', fn=fn)
         return
+    body, dargs = follow_delegation(crate, body)
     where = loc(body.raw)
     ev = Evaluator(crate)
-    top = ev.eval_entry(body)
+    top = ev.eval_entry(body, dargs)
     try:
         l, nid, inner = loop_summary(ev, body, ('While', 'Loop'))
     except AnchorMissing as ex:
@@ -145,6 +163,23 @@ def check_search(rep, crate, cfgname):
 def check_err_origin(rep, crate, cfgname):
     """DivergenceLimitExceeded is constructed only inside the fixed-point kernel"""
     allowed = {SWO, BRUTE}
+    # private helpers of the kernel module that are only reached from the kernel (e.g. the iteration extracted into its
+    # own function) belong to the kernel
+    callers = {}
+    for b in crate.body_list:
+        for node in b.walk():
+            if node.get('k') in ('Call', 'MethodCall') and node.get('callee'):
+                callers.setdefault(node['callee'], set()).add(b.path)
+    grew = True
+    while grew:
+        grew = False
+        for b in crate.body_list:
+            if b.path in allowed or not b.path.startswith('fixed_point::') or not str(b.raw.get('vis', '')).startswith('Restricted'):
+                continue
+            cs = callers.get(b.path, set())
+            if cs and cs <= allowed:
+                allowed.add(b.path)
+                grew = True
     n = 0
     for b in crate.body_list:
         for node in b.walk():
